@@ -347,7 +347,7 @@ def q_jobs(bindir, prop, tier, seed, seq_enum=True, caps="unbounded,1,2,3", drop
         jobs += shards(bindir, "queue_driver", prop + "-panicstorm", seed, 1, base + ["--mode", "panic-storm"] + ([] if quick else ["--big"]), 3400)
     if drop_matrix:
         jobs += shards(bindir, "queue_driver", prop + "-slowdrop", seed, 1, base + ["--mode", "slow-drop"], 3400)
-    if prop in ("C08", "C09", "C10", "C16"):
+    if prop in ("C08", "C09", "C10", "C15", "C16"):
         jobs += shards(bindir, "queue_driver", prop + "-compose", seed, 1 if quick else 4, base + ["--mode", "compose"], 3400)
     if droprace:
         jobs += shards(bindir, "queue_conc", prop + "-droprace", seed, NCPU, base + ["--mode", "droprace", "--cases", "400" if quick else "30000"], 3400)
